@@ -78,10 +78,11 @@ Fixpoint map_set (p : pmap) (k : K) (x : Z) : pmap :=
   | (k', y) :: r => if keqb k' k then (k', x) :: r else (k', y) :: map_set r k x
   end.
 
+(* delete(present, k): no entry for k remains *)
 Fixpoint map_del (p : pmap) (k : K) : pmap :=
   match p with
   | [] => []
-  | (k', y) :: r => if keqb k' k then r else (k', y) :: map_del r k
+  | (k', y) :: r => if keqb k' k then map_del r k else (k', y) :: map_del r k
   end.
 
 (* the Update callback: lru.present[v.key] = pos, once per reported move, in order *)
@@ -313,6 +314,9 @@ Arguments limit {K V} c.
 Arguments EOk {K V} r log.
 Arguments EPanic {K V} k.
 Arguments EFuel {K V}.
+
+(* a normal return as an event *)
+Definition ok_event {K V} (rl : out V * evlog K V) : event K V := EOk (fst rl) (snd rl).
 
 (* ---- the instance replayed against the implementation: int keys and values ---- *)
 (* size functions of the harness: mode 0 = default (1), k > 0: v mod k, k < 0: v mod (-k) - 1
